@@ -9,9 +9,11 @@ import Tahoe.Web.Authority
        k=v: m=put|post|delete  t=none|mkdir|mkdirwc|mkdirimm|upload|uri|del|unlink|rename|relink|setchildren|bad
             name=N to=N todir=CAP/PATH cap=CAP kids=ENTRIES repl=yes|no|only fmt=1 off=1
        output: `ok` or `err:<class>:<phase>` (phase t = raised during traversal, r = by the render method),
-               then ` grid=` objects as `K/ENTRIES/ver`
+               for a refusal ` caps=` the cap strings its body shows (`addr.auth`,… or `-`), then ` grid=` objects as `K/ENTRIES/ver`
     `caps GRID CAP PATH json|info|html|uri|rouri` — cap strings shown by a renderer for the node the path
        resolves to; output `addr.auth` joined by `,` (in model order) or `none` if the path does not resolve.
+    `unpack GRID ADDR W` — `_unpack_contents` of the stored entries of directory ADDR by a view that is writeable (W=1) or
+       read-only (W=0); output `name:addr:w|r` per child.
     `cache GRID OPS` — a history of `NodeMaker.create_from_cap`: OPS joined by `,`, each `c.addr.auth` (look the cap up and
        hold the node) or `e` (every node is dropped and collected); output `w`/`r` per lookup (node writeable or not). -/
 open Tahoe.Drv Tahoe.Web
@@ -92,17 +94,17 @@ def showErr : Err → String
   | .conflict => "conflict" | .badRequest => "badRequest" | .notAllowed => "notAllowed"
   | .notFound => "notFound" | .mustBeDeepImmutable => "mustBeDeepImmutable"
 
+def showCaps (cs : List Cap) : String :=
+  if cs.isEmpty then "-" else ",".intercalate (cs.map (fun c => s!"{c.addr}.{showAuth c.auth}"))
+
 /-- `serve`, keeping the phase in which an error arose (same two steps as `Tahoe.Web.serve`) -/
 def serveShow (fixed : Bool) (g : Grid) (c : Cap) (path : List Nat) (r : Req) : String :=
   match traverse g (rootHandler g c) r (path.getLast?.getD 0) path with
-  | (g1, .err e) => s!"err:{showErr e}:t grid={showGrid g1}"
+  | (g1, .err e) => s!"err:{showErr e}:t caps={showCaps (refusedBodyCaps c r e)} grid={showGrid g1}"
   | (g1, .ok hd) =>
     match render fixed g1 hd r with
     | (g2, .ok _) => s!"ok grid={showGrid g2}"
-    | (g2, .err e) => s!"err:{showErr e}:r grid={showGrid g2}"
-
-def showCaps (cs : List Cap) : String :=
-  if cs.isEmpty then "-" else ",".intercalate (cs.map (fun c => s!"{c.addr}.{showAuth c.auth}"))
+    | (g2, .err e) => s!"err:{showErr e}:r caps={showCaps (refusedBodyCaps c r e)} grid={showGrid g2}"
 
 def handle : List String → String
   | "serve" :: f :: gs :: cs :: ps :: kvs =>
@@ -124,6 +126,12 @@ def handle : List String → String
         | "uri" => showCaps (renderUri h)
         | "rouri" => showCaps (renderReadonlyUri h)
         | _ => "bad-op"
+    | _, _, _ => "bad-op"
+  | ["unpack", gs, a, w] =>
+    match parseGrid gs, a.toNat?, (if w == "1" then some true else if w == "0" then some false else none) with
+    | some g, some addr, some writeable =>
+      let kids := unpackContents g writeable (storedEntries g addr)
+      if kids.isEmpty then "-" else ",".intercalate (kids.map (fun x => s!"{x.1}:{x.2.addr}:{if x.2.w then "w" else "r"}"))
     | _, _, _ => "bad-op"
   | ["cache", gs, ops] =>
     match parseGrid gs with
